@@ -100,30 +100,43 @@ def judge_malformed(sh, sp, fam, code, ctx):
 
 
 def run_shard(spec):
+    import zlib
     sh = Shard(max_per_sig=3)
-    k = 0
+    n = spec["nshards"]
     seen = set()
+    work = []      # (spelling, family, required code or None)
+    k = 0
     for sp, fam in spellings(spec):
         if sp in seen:
             continue
         seen.add(sp)
-        k += 1
-        if k % spec["nshards"] != spec["shard"]:
+        # spellings that differ only in letter case are lexed in the same process, so that a result
+        # remembered under too coarse a key (case-folded, prefix-stripped ...) is observable
+        if zlib.crc32(sp.lower().encode()) % n != spec["shard"]:
             continue
-        ctxs = CONTEXTS if (k // spec["nshards"]) % 5 == 0 else [CONTEXTS[0], CONTEXTS[1 + (k // spec["nshards"]) % (len(CONTEXTS) - 1)]]
-        for ctx in ctxs:
-            if ctx[0] == "-" and False:
-                continue
-            sh.case(ctx[0] + sp + ctx[1])
-            judge_valid(sh, sp, fam, ctx)
-        if k % 5000 == 1:
-            sh.sample({"valid": sp, "family": fam}, cap=2)
-    if spec["shard"] == 0:
-        for sp, fam, code in literals.malformed():
-            for ctx in CONTEXTS:
-                sh.case("bad" + ctx[0] + sp + ctx[1])
-                judge_malformed(sh, sp, fam, code, ctx)
-        sh.sample({"malformed": "1.2.3", "required": "MULTIPLE_DOTS"}, cap=3)
+        work.append((sp, fam, None))
+    for sp, fam, code in literals.malformed():
+        if zlib.crc32(sp.lower().encode()) % n == spec["shard"]:
+            work.append((sp, fam, code))
+    # two passes in opposite orders: the classification of a literal must not depend on what was lexed before it
+    for order, items in (("forward", work), ("backward", list(reversed(work)))):
+        for sp, fam, code in items:
+            k += 1
+            if code is None:
+                full = (k % 5 == 0)
+                ctxs = CONTEXTS if full else [CONTEXTS[0], CONTEXTS[1 + k % (len(CONTEXTS) - 1)]]
+                if order == "backward":
+                    ctxs = ctxs[:1]
+                for ctx in ctxs:
+                    sh.case(ctx[0] + sp + ctx[1])
+                    judge_valid(sh, sp, fam, ctx)
+            else:
+                for ctx in (CONTEXTS if order == "forward" else CONTEXTS[:2]):
+                    sh.case("bad" + ctx[0] + sp + ctx[1])
+                    judge_malformed(sh, sp, fam, code, ctx)
+            if k % 5000 == 1:
+                sh.sample({"literal": sp, "family": fam, "required": code}, cap=2)
+        sh.count("c11.passes_in_opposite_orders")
     return sh.result()
 
 
